@@ -4,7 +4,7 @@ From Coq Require Import ZArith QArith Qabs List Bool.
 From QV Require Import Model.Num Model.Rounding Model.Quantity Model.Dim Model.Registry
      Model.Rates Model.RegRates Proofs.QuantityProofs Proofs.DimProofs Proofs.RegistryProofs
      Proofs.DirectoryProofs Proofs.C02Proofs Proofs.C09Proofs Proofs.C10MoneyProofs
-     Proofs.C10Proofs.
+     Proofs.C10Proofs Gen.QuantityImpl Gen.OpsImpl Proofs.GenOpsEq.
 
 (* money * rate, rate * money: the exact product, rounded once to the target
    currency's smallest fraction (the multiple the default mode prescribes; on
@@ -98,6 +98,17 @@ Theorem C10_compound_only_quantity_error : forall s dm (mul : bool) a uid r u cu
   e = EQuantityError \/ e = EOther.
 Proof. exact apply_rate_compound_errors. Qed.
 Print Assumptions C10_compound_only_quantity_error.
+
+(* the function the directory-level theorems are about IS the code:
+   ExchangeRate.__mul__ (= __rmul__) and __rtruediv__ of
+   src/quantity/money/__init__.py are re-translated on every run, once for a
+   Money operand and once for a quantity of another type (Gen/OpsImpl.v:
+   R_mul_money, R_mul_qty, R_rdiv_money, R_rdiv_qty), and combined by the
+   operand dispatch (rate_code) equal apply_rate on every state and operand *)
+Theorem C10_model_is_translated_code : forall s dm ce mul a uid r,
+  apply_rate s dm mul a uid r = rate_code s dm ce mul a uid r.
+Proof. exact apply_rate_is_code. Qed.
+Print Assumptions C10_model_is_translated_code.
 
 (* non-vacuity: Money (EUR = 1, HKD = 2), Mass (kg = 3), PricePerMass = Money/Mass
    with EUR/kg (4) and HKD/kg (5); 2 EUR/kg * (EUR -> HKD at 9) = 18 HKD/kg;
